@@ -260,6 +260,11 @@ impl Scene for WithBroker {
 }
 
 fn make_case(picks: &[usize], extras: Extras, mailbox: Mailbox, early: u32, bound: Option<u32>) -> Case {
+    make_case_s(picks, extras, mailbox, early, bound, false)
+}
+
+/// `stream`: the actor is attached to a stream that stays open (one item ready, never closed)
+fn make_case_s(picks: &[usize], extras: Extras, mailbox: Mailbox, early: u32, bound: Option<u32>, stream: bool) -> Case {
     let all = scripts();
     let mut clients = vec![];
     let mut names = vec![];
@@ -288,10 +293,14 @@ fn make_case(picks: &[usize], extras: Extras, mailbox: Mailbox, early: u32, boun
     // temporary across steps; `interval` upgrades, force-sends and lets go within one poll
     let temporaries = matches!(extras, Extras::IntervalWithSlow | Extras::Subscribed);
     let instant_ticks = matches!(extras, Extras::Interval | Extras::TwoIntervals);
-    let desc = format!("lifetime mailbox={} extras={:?} early={} clients={}", mailbox.name(), extras, early, names.join(" | "));
+    let desc = format!("lifetime mailbox={} extras={:?} early={} stream={} clients={}", mailbox.name(), extras, early, stream, names.join(" | "));
     let ps = ProgScene {
         spawn: SpawnCfg::plain(mailbox),
-        attach: Attach::None,
+        attach: if stream {
+            Attach::Stream { via: crate::scenes::StreamVia::BuildOnStream, prefill: vec![71], close: false }
+        } else {
+            Attach::None
+        },
         roles: vec![role],
         clients,
         extra: X { temporaries, instant_ticks },
@@ -325,6 +334,18 @@ fn cases(tier: Tier) -> Vec<Case> {
                 }
             }
         }
+        // stream-attached actors (the other event loop): an open stream must not keep the actor alive
+        if mb == Mailbox::U {
+            for i in 0..n {
+                v.push(make_case_s(&[i], Extras::None, mb, 0, None, true));
+                for j in i..n {
+                    if i == 7 && j == 7 {
+                        continue;
+                    }
+                    v.push(make_case_s(&[i, j], Extras::None, mb, 0, None, true));
+                }
+            }
+        }
         // timer expiry racing with runnable tasks
         for &ex in &[Extras::Interval, Extras::IntervalWithSlow] {
             for i in 0..n {
@@ -353,6 +374,7 @@ pub fn property() -> Property {
         id: "C05",
         cases,
         clauses: &["strong-keeps-alive", "last-drop-terminates", "upgrade-after-last-drop", "timers-do-not-keep-alive"],
+        full_rerun_check: true,
         assumptions: &[
             "strong handles are tracked on the harness side: created at the end of the creating operation, gone from the begin of the dropping one (conservative in both directions)",
             "in scenes with timers or a broker subscription hannibal itself holds short-lived strong temporaries (a timer's parked try_send, the broker's fan-out); there only 'upgrade never succeeds again after it failed' is required",
